@@ -14,13 +14,12 @@
 (* (before the fixes F1/F2), kept so that the self-test can show TLC       *)
 (* finding those two defects as counterexamples.                           *)
 (***************************************************************************)
-EXTENDS Integers, Sequences, FiniteSets, Residues
+EXTENDS Integers, Sequences, FiniteSets, Residues, ObjectFunctions
 CONSTANTS ObjIds, Pool, SiteArgs, PalArgs, LegacyCache
 VARIABLES objs, shared, last
 vars == <<objs, shared, last>>
 
 None == <<"none">>
-SetOfSeq(sq) == {sq[i] : i \in 1..Len(sq)}
 Comp(seq) == << Cardinality({i \in 1..Len(seq) : seq[i] \in Positive}),
                 Cardinality({i \in 1..Len(seq) : seq[i] \in Negative}),
                 Cardinality({i \in 1..Len(seq) : seq[i] \notin Positive \cup Negative}) >>
@@ -50,41 +49,6 @@ DeltaMaxCode(r, want) ==
        IN << IF want THEN <<r1.dmax, r1.perm>> ELSE r1.dmax, r1 >>
 KappaCode(r) ==      \* kappa() reads deltaMax() (no permutant) and divides
   LET dm == DeltaMaxCode(r, FALSE) IN << <<"kappa", r.seq, dm[1]>>, dm[2] >>
-
-(***************************************************************************)
-(* phosphosites                                                            *)
-(***************************************************************************)
-RECURSIVE SetSitesSpec(_,_,_)
-SetSitesSpec(seq, cur, arg) ==
-  IF arg = <<>> THEN cur
-  ELSE LET site == Head(arg)
-           ok == site \in 1..Len(seq) /\ seq[site] \in Phosphorylatable /\ site \notin SetOfSeq(cur) IN
-       SetSitesSpec(seq, IF ok THEN Append(cur, site) ELSE cur, Tail(arg))
-PhosphoSeq(seq, sites) == [i \in 1..Len(seq) |-> IF i \in SetOfSeq(sites) THEN "E" ELSE seq[i]]
-\* on/off assignment number k (0 .. 2^n - 1) in binary counting order, first site = most significant bit
-Pow2(n) == IF n = 0 THEN 1 ELSE LET RECURSIVE P(_) P(j) == IF j = 0 THEN 1 ELSE 2 * P(j-1) IN P(n)
-Bit(k, j, n) == (k \div Pow2(n - j)) % 2                       \* j = 1..n
-SubstSeq(seq, sites, k) == [i \in 1..Len(seq) |->
-   IF \E j \in 1..Len(sites) : sites[j] = i /\ Bit(k, j, Len(sites)) = 1 THEN "E" ELSE seq[i]]
-
-(***************************************************************************)
-(* palette                                                                 *)
-(***************************************************************************)
-\* an argument is a function from some set of keys to values
-ValidPalette(d) == \A r \in Residues : r \in DOMAIN d /\ d[r] \in HTMLColours
-Restrict(d) == [r \in Residues |-> d[r]]
-
-(***************************************************************************)
-(* rendering: a sequence of tokens <<"sp">>, <<"br">>, <<"res", colour, letter>> *)
-(***************************************************************************)
-RECURSIVE RenderFrom(_,_,_)
-RenderFrom(seq, pal, i) ==
-  IF i > Len(seq) THEN <<>>
-  ELSE (IF (i - 1) % 10 = 0 THEN << <<"sp">> >> ELSE <<>>)
-       \o (IF (i - 1) % 50 = 0 THEN << <<"br">> >> ELSE <<>>)
-       \o << <<"res", pal[seq[i]], seq[i]>> >> \o RenderFrom(seq, pal, i + 1)
-Render(seq, pal) == RenderFrom(seq, pal, 1)
-StripMarkup(toks) == LET rs == SelectSeq(toks, LAMBDA tk : tk[1] = "res") IN [i \in 1..Len(rs) |-> rs[i][3]]
 
 (***************************************************************************)
 (* actions                                                                 *)
@@ -213,6 +177,10 @@ SitesOnlyGrowOrClear == [][\A o \in ObjIds : objs[o].alive /\ objs'[o].alive /\ 
                              \/ objs'[o].sites = <<>> /\ last'.call = "clear_phosphosites"
                              \/ /\ Len(objs'[o].sites) >= Len(objs[o].sites)
                                 /\ SubSeq(objs'[o].sites, 1, Len(objs[o].sites)) = objs[o].sites]_vars
+\* the code-shaped fold over the argument does what the documentation says one call may do
+SetSemantics == [][last'.call = "set_phosphosites" =>
+                     SetSitesDoc(objs[last'.obj].seq, objs[last'.obj].sites, last'.arg, objs'[last'.obj].sites)]_vars
+ClearEmpties == [][last'.call = "clear_phosphosites" => objs'[last'.obj].sites = <<>>]_vars
 \* C20
 PaletteAtomic == [][last'.call = "set_palette" =>
                       IF ValidPalette(last'.arg) THEN objs'[last'.obj].pal = Restrict(last'.arg)
